@@ -22,7 +22,8 @@ RULE = ('Base systems from the C01 generator (1-3 types, all closures / potentia
 ASSUMPTIONS = ['two independent solves are never compared: the discretised equations can have several roots (observed), so root-level '
                'statements start the second solve from T(root)',
                'x is symmetric in the pair indices (cost() reads gamma of the (i<=j) entry only)',
-               'cases with cond(I-Omega C) > 1e6 at some k are counted and skipped (rounding amplification)']
+               'cases with cond(I-Omega C) > 1e6 at some k, or cond x max|Omega C| > 1e7, are counted and skipped (rounding amplification); the tolerance is '
+               '1e-11 x that amplification']
 EPS = np.finfo(float).eps
 NEW_NAMES = ['Q', 'P', 'S', 'R']
 
@@ -224,11 +225,17 @@ class CostLevel(Sub):
             return out
         with np.errstate(all='ignore'):
             cond = max(float(np.max(np.linalg.cond(pr0.IOC.data))), float(np.max(np.linalg.cond(pr1.IOC.data))))
-        if not np.isfinite(cond) or cond > 1e6:
+        # rounding amplification of H = (I - Omega C)^-1 Omega C Omega: condition number times the size of Omega C (a shell
+        # where c = -high_value/kT, e.g. MSA+flag on a hard potential whose explicit sigma exceeds the contact distance, makes
+        # Omega C ~ 1e5 and H ~ -Omega by cancellation)
+        with np.errstate(all='ignore'):
+            oc = max(float(np.max(np.abs(pr0.OC.data))), float(np.max(np.abs(pr1.OC.data))), 1.0)
+        amp = cond * oc
+        if not np.isfinite(amp) or cond > 1e6 or amp > 1e7:
             out.skipped = 'ill-conditioned'
             return out
         scale = float(np.max(np.abs(y0))) + float(np.max(np.abs(x0))) + 1e-6
-        tol = 1e-11 * cond * scale
+        tol = 1e-11 * amp * scale
         want = embed(y0, idx, L)
         dev = float(np.max(np.abs(y1 - want)))
         out.info = {'cond': cond, 'dev_over_tol': dev / tol}
@@ -239,7 +246,7 @@ class CostLevel(Sub):
             return out
         hmax = float(np.max(np.abs(pr0.totalCorr.data)))
         out.nontrivial = hmax > 1e-2 and (kind != 'scale' or case['s'] != 1.0)
-        compare_calculate(pr0, pr1, idx, factor, out, sig, max(1e-9, 1e-11 * cond), kind)
+        compare_calculate(pr0, pr1, idx, factor, out, sig, max(1e-9, 1e-11 * amp), kind)
         return out
 
 
